@@ -29,6 +29,7 @@ done
 echo "$i" > "$PROBE_OUT/count"
 `
 
+var probeNameSeq int64
 var probeOnce sync.Once
 var probePath string
 
@@ -82,10 +83,14 @@ func runWrapper(r *Run, fs map[string]fsx.Entry, args []string, kubectl bool) (*
 		}
 		argv0 = filepath.Join(binDir(), "kubectl-bkl")
 	} else {
-		if err := os.Symlink(probe, filepath.Join(bin, "probe")); err != nil {
+		// the wrapped program's name is the wrapper's own name without the trailing "b";
+		// names with dots and digits are ordinary program names (tool.sh, python3.11, web.v2)
+		names := []string{"probe", "probe", "probe.sh", "probe3.11", "web.v2", "a.b"}
+		pn := names[int(atomic.AddInt64(&probeNameSeq, 1))%len(names)]
+		if err := os.Symlink(probe, filepath.Join(bin, pn)); err != nil {
 			return nil, err
 		}
-		argv0 = filepath.Join(bin, "probeb")
+		argv0 = filepath.Join(bin, pn+"b")
 		if err := os.Symlink(filepath.Join(binDir(), "bklb"), argv0); err != nil {
 			return nil, err
 		}
